@@ -49,6 +49,20 @@ Proof. exact src_worker_spec. Qed.
 Print Assumptions C02_listen_worker_segmentation_independent.
 Check stale_tail_is_redelivered.
 
+(* upgraded mode through handle(): the interface returns the incomplete last record of its protocol as unread bytes, handle()
+   hands them to its caller as the tail (regenerated: upgraded_unread_passed_on), the caller prepends them to the next
+   chunk - output and final tail are then those of one call on the whole stream, whatever the chunking and whatever the
+   interface writes per record *)
+From VL Require Import Reader Upgraded.
+From VLG Require Import WireGen.
+Theorem C02_upgraded_tail_protocol : forall react a b, concat a = concat b ->
+  drive react upgraded_unread_passed_on [] a = drive react upgraded_unread_passed_on [] b.
+Proof.
+  intros react a b H. assert (E : upgraded_unread_passed_on = true) by (vm_compute; reflexivity). rewrite E.
+  exact (tail_protocol_whole react a b H).
+Qed.
+Print Assumptions C02_upgraded_tail_protocol.
+
 (* tie: the functions this property's model describes by hand (not by translation) still have the pinned text; an
    edit to one of them breaks this obligation and sends the check searching for a failing input *)
 From VLG Require Import ShapeGen.
